@@ -198,13 +198,19 @@ func (m *Memberlist) Join(addrs []string) (int, error) {
 			continue
 		}
 		// merge views both ways; everybody who learns about a new node gets a join event
-		for name, nd := range peer.members {
+		pnames := make([]string, 0, len(peer.members))
+		for name := range peer.members {
+			pnames = append(pnames, name)
+		}
+		sort.Strings(pnames)
+		for _, name := range pnames {
+			nd := peer.members[name]
 			if _, known := m.members[name]; !known {
 				m.members[name] = nd
 				m.net.enqueue(&Pending{Kind: "join", To: m.cfg.Name, Node: nd})
 			}
 		}
-		for _, other := range m.net.nodes {
+		for _, other := range m.net.sortedNodes() {
 			if other == m || other.left {
 				continue
 			}
@@ -239,7 +245,7 @@ func (m *Memberlist) Leave(timeout time.Duration) error {
 		return nil
 	}
 	m.left = true
-	for _, other := range m.net.nodes {
+	for _, other := range m.net.sortedNodes() {
 		if other == m || other.left {
 			continue
 		}
@@ -275,7 +281,7 @@ func (m *Memberlist) UpdateNode(timeout time.Duration) error {
 		return errors.New("fakeml: node has left")
 	}
 	m.self.Meta = meta
-	for _, other := range m.net.nodes {
+	for _, other := range m.net.sortedNodes() {
 		if other == m || other.left {
 			continue
 		}
@@ -296,6 +302,21 @@ func (m *Memberlist) SendReliable(to *Node, msg []byte) error {
 	}
 	m.net.enqueue(&Pending{Kind: "msg", From: m.cfg.Name, To: to.Name, Data: append([]byte(nil), msg...)})
 	return nil
+}
+
+// sortedNodes returns the network's nodes in name order (callers hold n.mu): every place that
+// enqueues steps iterates in this order so that step sequence numbers are reproducible.
+func (n *Network) sortedNodes() []*Memberlist {
+	names := make([]string, 0, len(n.nodes))
+	for k := range n.nodes {
+		names = append(names, k)
+	}
+	sort.Strings(names)
+	out := make([]*Memberlist, 0, len(names))
+	for _, k := range names {
+		out = append(out, n.nodes[k])
+	}
+	return out
 }
 
 // ---- world-side controls ----
